@@ -838,3 +838,27 @@ def _spec_shrinks(sp):
                 c = copy.deepcopy(sp)
                 c['internal'][k][i] = [1, 1]
                 yield c
+
+
+# ------------------------------------------------------------------------------------------ evidence metadata
+
+CHUNK = 200
+RULE = ("run index i < 108*108*5: systematic family - ordered pair (op_a, op_b) of the 108-entry catalogue applied by two "
+        "clients to one shared all-features annotation (5 fixed Specs); other indices: seeded random history of 2-12 "
+        "catalogue calls by 1-3 clients on 1-4 shared generated annotations plus shared list/dict arguments, with "
+        "interleaved single steps / abandonment of lazy results, scribbles on returned values, RNG use, vocabulary "
+        "refresh and poisoned modifications, per-run swarm switches. Distinct = distinct sequence of (event kind | op "
+        "name); non-trivial = some shared pool object was passed to at least two calls and at least one oracle "
+        "comparison ran.")
+EXPECTED_PROBES = ['twin_first', 'call_raised', 'lazy_stepped_across_a_call', 'abandoned_after_first_item',
+                   'explicit_editor_event']
+FAMILY_STARTS = [0, 108 * 108 * 5]
+ASSUMPTIONS = [
+    "field accessors (properties, has_*, get_internal_mods_by_index) and Fragment.parent_sequence are references into "
+    "the object by design and are not treated as 'results' for the aliasing clause",
+    "an empty modification list and None are the same observable state of an annotation field",
+    "dict key order is not observable state",
+    "functions named add_*/pop_* are explicit editors of their sequence argument (exempt from ARG on that argument only)",
+    "the search samples histories; a clean batch is evidence, not proof",
+]
+STUB_NOTE = ""
